@@ -154,6 +154,26 @@ def corr(ctx):
             ops.append(Op("hard %s %d,%d" % (tname, x, y), got, nontrivial=(x, y) not in [(p[0], p[1]) for p in P],
                           info={"site": site_h, "config": dict(cfg, point=[x, y])}, prop_ok=(got == want)))
         ctx.count("hard_" + inst.kind, len(points))
+        # exact ties: midpoints between nearest neighbours (an erased / zero-padded symbol sits exactly on a decision boundary).  Either
+        # neighbour is a correct answer - anything else is not a nearest point (oracle only, no tie-break is demanded)
+        if inst.kind in ("bpsk", "qpsk", "psk", "qam", "pam"):
+            dmin = min((a[0] - b_[0]) ** 2 + (a[1] - b_[1]) ** 2 for i_, a in enumerate(P) for b_ in P[i_ + 1:]) if len(P) > 1 else 0
+            mids = []
+            for i_, a in enumerate(P):
+                for b_ in P[i_ + 1:]:
+                    if (a[0] - b_[0]) ** 2 + (a[1] - b_[1]) ** 2 == dmin and (a[0] + b_[0]) % 2 == 0 and (a[1] + b_[1]) % 2 == 0:
+                        mids.append(((a[0] + b_[0]) // 2, (a[1] + b_[1]) // 2))
+            mids = list(dict.fromkeys(mids))
+            if len(mids) > 24:
+                mids = ctx.rng.sample(mids, 24)
+            if mids:
+                tie_out = _call(inst, name, mids, S)
+                for (x, y), hb in zip(mids, tie_out):
+                    ds = [(p[0] - x) ** 2 + (p[1] - y) ** 2 for p in P]
+                    near = {format(p[2], "0%db" % b) for p, d_ in zip(P, ds) if d_ <= min(ds) + max(1, min(ds) // 10 ** 6)}
+                    got = bstr(hb)
+                    ops.append(Op("gray 0", "0", nontrivial=False, info={"site": site_h, "config": dict(cfg, point=[x, y], tie=True, nearest_labels=sorted(near), got=got)}, prop_ok=(got in near)))
+                ctx.count("hard_exact_ties", len(mids))
         # soft outputs
         c = C_CONST[inst.kind]
         nvs = NVS if ctx.thorough else NVS[::2] + [NVS[1]]
@@ -258,7 +278,9 @@ def search(ctx, mismatches, broken, prop_fail):
             # a model/implementation difference on which the property itself (oracle) is satisfied is not a failing input
             continue
         seen.add(key)
-        if site.endswith(".history"):
+        if cfg.get("tie"):
+            what = "%s: received point %s/%d lies exactly between nearest neighbours labelled %s but is decided as %s, which is not a nearest constellation point" % (cfg.get("inst"), cfg.get("point"), F, cfg.get("nearest_labels"), cfg.get("got"))
+        elif site.endswith(".history"):
             what = ("pi/4-QPSK demodulator (training mode) after a call with %s symbol(s): soft output %s of the next %s symbol(s) is not signed like the hard decision %s of an "
                     "identical object with the same history" % (cfg.get("symbols_before"), cfg.get("soft"), cfg.get("symbols"), cfg.get("hard")))
         elif site.endswith(".hard"):
